@@ -141,7 +141,7 @@ PROPS["C06"] = {
     "title": "successful Set visible, never lost without a reason",
     "technique": "SSA symbolic execution of bounded sequential histories of the real Store API (Set/Get/Delete/Wait/tick, loader) against a reference model + SMT (z3): costs, TTLs and clock advances symbolic",
     "level_text": "Bounded symbolic model checking: every history of N real API calls (Set on two keys, Get, Delete, clock advance, drain, tick) is executed on the real Store with its real maintenance goroutines; costs (including 0 = cost function and values above MaxSize), TTLs and clock advances are symbolic and z3 decides the reference model's predictions (Set result, immediate visibility, no loss and no eviction without capacity pressure, fresh entry after expiry, oversize never admitted) for all their values.",
-    "level_note": "Trusted: go/ssa, executor encoding, z3, the clock/ticker stubs, concrete hash (one fixed mixing function; two keys), one read stripe. MaxSize 3, histories of N=2 (quick) / 3 (thorough) calls; TTL <= 2^29 ns and advances <= 2^30 ns so that entries stay on the finest wheel (C04 covers placement). Known finding: plain Set on an expired, unreclaimed key keeps the passed deadline.",
+    "level_note": "Trusted: go/ssa, executor encoding, z3, the clock/ticker stubs, concrete hash (one fixed mixing function; two keys), one read stripe. MaxSize 3, histories of N=2 (quick) / 3 (thorough) calls; TTL <= 2^29 ns and advances <= 2^30 ns so that entries stay on the finest wheel (C04 covers placement). (The former known finding, a plain Set on an expired, unreclaimed key keeping the passed deadline, has been repaired in the repository.)",
     "assumptions": ["fresh cached clock before every read (staleness is C03)", "single client thread; maintenance runs at the client's blocking points"],
     "outside_bound": ["histories longer than N", "more than two keys", "MaxSize other than 3", "TTL > 2^29 ns"],
     "quick": [H("ZZ_C06_History", params={"N": 2}, reach=["history-done", "set-true", "set-false"], bounds="N=2 calls, cap 3, doorkeeper off"),
@@ -238,7 +238,7 @@ PROPS["C02"] = {
     "title": "resident cost within MaxSize after drain; nothing untracked",
     "technique": "SSA symbolic execution with controlled threads of two-client programs on the real Store (symbolic costs), then Wait and accounting invariants decided by z3; sync/atomic operations as scheduling points for the expiry window",
     "level_text": "Bounded model checking: two clients x OPS operations (Set k1 / Set k2 with symbolic costs 1..MaxSize, Delete, Get) in every interleaving within the preemption bound; after Wait the harness asserts, for all cost values, resident cost = policy total = sum of region sizes <= MaxSize, every resident entry on exactly one region list with policy weight = weight and not flagged removed, and Len/EstimatedSize views. A second program places a TTL extension at every atomic step of the expiry path (no source hook needed: the executor schedules at sync/atomic operations).",
-    "level_note": _thr_note + "Entry pool off (as the property states) except in ZZ_C02_PoolStaleUpdate. The in-flight bound on unaccounted entries is not asserted as a running monitor; the mechanism behind it (a writer waits on the full queue rather than skipping the accounting) is exercised with a one-slot queue, where a skipped event shows up as an untracked resident entry after the drain. Known finding: removed flag set before the deadline re-check (ZZ_C02_ExpiryWindow; every assertion of that program is attributed to it).",
+    "level_note": _thr_note + "Entry pool off (as the property states) except in ZZ_C02_PoolStaleUpdate. The in-flight bound on unaccounted entries is not asserted as a running monitor; the mechanism behind it (a writer waits on the full queue rather than skipping the accounting) is exercised with a one-slot queue, where a skipped event shows up as an untracked resident entry after the drain.",
     "assumptions": ["MaxSize 2, two keys"],
     "outside_bound": ["bound on unaccounted entries while writes are in flight", "more than 2 clients / 2 ops", "preemption bound above 1"],
     "quick": [H("ZZ_C02_Program", params={"PRE": 0}, reach=["drained"], bounds="2 clients x 2 ops, cap 2, preemptions 0, costs symbolic"),
@@ -258,7 +258,7 @@ PROPS["C05"] = {
     "title": "exactly one removal notification, true reason",
     "technique": "SSA symbolic execution with controlled threads: Delete, capacity eviction and expiry of the same entry overlapped in every schedule within the preemption bound; notification ledger oracle",
     "level_text": "Bounded model checking over schedules of the real Store with a removal listener: Delete vs eviction, Delete vs expiry, eviction vs expiry (with a value update before departure), rejected Sets; after drain each departed entry must have exactly one notification with its key, the value held at departure and a reason consistent with how it left, and stored = resident + notified.",
-    "level_note": _thr_note + "Scenario programs (not arbitrary histories); entry pool off and on. Known finding: a deleted entry that is evicted or expires before its REMOVE event is processed is never notified.",
+    "level_note": _thr_note + "Scenario programs (not arbitrary histories); entry pool off and on.",
     "assumptions": ["scripted overlap scenarios on capacity 1 and 10"],
     "outside_bound": ["arbitrary operation histories", "preemption bound above 1 (thorough 2)"],
     "quick": [H("ZZ_C05_DeleteVsEvict", params={"PRE": 1}, reach=["drained"]), H("ZZ_C05_DeleteVsEvict", params={"PRE": 1, "POOL": 1}, reach=["drained"]),
@@ -329,7 +329,7 @@ PROPS["C11"] = {
     "title": "SaveCache/LoadCache round trip (logic, not gob bytes)",
     "technique": "SSA symbolic execution of the real Store.Persist / Store.Recover / List.Persist / DataBlock with encoding/gob stubbed as a value channel; source cache built through the real API; elapsed time and costs symbolic (z3)",
     "level_text": "Bounded symbolic model checking of the repository's own save/restore logic: a cache filled through the real API (entries with and without TTL, hits that move entries between regions) is saved to a ghost stream and loaded into a fresh cache after a symbolic clock advance; for all advances (and symbolic costs in the COSTS runs) z3 decides that every unexpired entry is restored with the same key, value, cost and deadline, region, relative order and at least the saved frequency, that expired ones are dropped, that the new cache satisfies the accounting and wheel-membership invariants and adopts the saved clock origin; block splitting at arbitrary points is explored. Claimed in part: the gob byte stream is not modelled.",
-    "level_note": "Trusted: go/ssa, executor encoding, z3. " + _gob_note + "Known finding: loading into a smaller cache can exceed the new capacity when costs are not 1.",
+    "level_note": "Trusted: go/ssa, executor encoding, z3. " + _gob_note + "Source caches: 4-16 entries, unit or symbolic costs 1..3, optionally after two sample periods of the real hill climber or with the protected region above its size.",
     "assumptions": ["gob round-trips the values it is given (its contract, and the README's precondition on key/value types)", "N=4 entries, capacity 10"],
     "outside_bound": ["gob byte layout and 4 MiB thresholds as byte counts", "more than 4 entries", "arbitrary adaptive-split states (only those reached by the fill script)"],
     "quick": [H("ZZ_C11_RoundTrip", reach=["loaded"], bounds="4 entries, cap 10, same size, advance <= 2^31 ns symbolic"),
@@ -369,7 +369,7 @@ PROPS["C14"] = {
     "title": "hybrid cache never serves stale, deleted or expired values",
     "technique": "SSA symbolic execution with controlled threads of the real hybrid entry points (GetWithSecodary, Set, DeleteWithSecondary) with the real processSecondary worker and a nondeterministic secondary store; sequential histories against a model, Delete-vs-demotion race, symbolic read time",
     "level_text": "Bounded model checking: (a) every history of N calls (Set k1 with/without TTL, Set k2 on a one-slot memory tier so that demotion and promotion happen, hybrid Get, hybrid Delete, clock advance) with workers keeping up, checked against a model: a hit from either tier carries the last completed Set's value, never after a completed Delete or past the deadline; (b) Delete racing the demotion of the same entry in all schedules within the preemption bound; (c) promote-update-evict-read; (d) expired entry in the secondary tier with symbolic read time.",
-    "level_note": _thr_note + "Secondary store = harness map with a yield in every method (slow store); admission probability 1, 0 and symbolic; one worker (thorough: two); a full hand-off queue is modelled by letting the select in removeEntry take its default branch nondeterministically.",
+    "level_note": _thr_note + "Secondary store = harness map with a yield in every method (slow store); admission probability 1, 0 and symbolic; one worker (thorough: two); a full hand-off queue is modelled by letting the select in removeEntry take its default branch nondeterministically. Known finding: an overwrite of a promoted entry racing the eviction of that entry (ZZ_C14_UpdateVsEvict).",
     "assumptions": ["workers keep up between the calls of the sequential histories (the race program does not assume it)"],
     "outside_bound": ["more than two workers", "histories longer than N (quick 4, thorough 5)"],
     "quick": [H("ZZ_C14_Seq", params={"N": 4}, reach=["sequence-done", "hit", "promoted-from-secondary"], bounds="N=4 calls, memory capacity 1"),
